@@ -10,7 +10,7 @@ from ..flow import possibly_unbound
 from ..selftest import B, M
 from .common import (
     F_BASE, F_BC, F_BIN, F_CONT, F_DISC, F_GL, F_MULTI, F_QUAL, F_QUAN, F_SER, F_TYPE,
-    cfg_of, concrete_classes, construct, discretizer_classes, loc, path_str, short,
+    calls, cfg_of, concrete_classes, construct, discretizer_classes, loc, path_str, short,
 )
 from .grouped import _flatten_conditions, check_append_absent
 from . import c10, carver, quant
@@ -35,7 +35,7 @@ EXPLANATION = (
     "ChainedDiscretizer, which C18 covers)."
 )
 NOT_DECIDED = "absence of every other internal error on all inputs; that the fitted partition covers every training value"
-FLOORS = {"R-remove-complete": 12, "R-no-iter-mutation": 3, "R-boundaries-sorted-unique-inf": 4, "R-definite-assignment": 100, "R-nullable-dev": 6, "R-hooks-exhaustive": 2, "R-quantile-progress": 2, "R-append-absent": 9, "R-pool-args": 1, "R-select-nonempty": 2, "R-forward-sentinels": 8, "R-aggregate-fill": 2}
+FLOORS = {"R-stale-features": 3, "R-suffix": 6, "R-remove-complete": 12, "R-no-iter-mutation": 3, "R-boundaries-sorted-unique-inf": 4, "R-definite-assignment": 100, "R-nullable-dev": 6, "R-hooks-exhaustive": 2, "R-quantile-progress": 2, "R-append-absent": 9, "R-pool-args": 1, "R-select-nonempty": 2, "R-forward-sentinels": 8, "R-aggregate-fill": 2}
 
 PER_FEATURE = {
     "features", "qualitative_features", "quantitative_features", "values_orders", "input_dtypes", "labels_per_values",
@@ -395,7 +395,54 @@ def rule_quantile_progress(ctx):
     ctx.ob(R, construct(fi, "empty sub-array ends the recursion"), ok, loc(fi))
 
 
+def rule_stale_feature_snapshot(ctx):
+    """A value computed from `self.features` before features are removed (a per-column statistic, a
+    list of columns) is a snapshot of the old feature list: used after the removals to select or to
+    describe features it brings the dropped ones back (their values_orders entry is re-created).  The
+    only use such a snapshot may have after the removal loop started is driving that loop."""
+    R = "R-stale-features"
+    for fi in ctx.repo.all_functions():
+        if fi.cls is None or "/selectors/" in fi.module.relpath:
+            continue
+        rms = [c for c in calls(fi, "_remove_feature") if isinstance(c.func.value, ast.Name) and c.func.value.id == "self"]
+        if not rms:
+            continue
+        cfg = cfg_of(ctx, fi)
+        loops = [l for c in rms for l in cfg.enclosing_loops(c) if isinstance(l, (ast.For, ast.While))]
+        if not loops:
+            continue
+        first = min(loops, key=lambda l: l.lineno)
+        snaps = {}
+        for n in walk_no_nested(fi.node):
+            if isinstance(n, ast.Assign) and len(n.targets) == 1 and isinstance(n.targets[0], ast.Name) and n.lineno < first.lineno:
+                if any(isinstance(x, ast.Attribute) and x.attr == "features" and isinstance(x.value, ast.Name) and x.value.id == "self" for x in ast.walk(n.value)):
+                    snaps[n.targets[0].id] = n
+        # transitively: values derived from a snapshot before the loop
+        changed = True
+        while changed:
+            changed = False
+            for n in walk_no_nested(fi.node):
+                if isinstance(n, ast.Assign) and len(n.targets) == 1 and isinstance(n.targets[0], ast.Name) and n.lineno < first.lineno and n.targets[0].id not in snaps:
+                    if any(isinstance(x, ast.Name) and x.id in snaps for x in ast.walk(n.value)):
+                        snaps[n.targets[0].id] = n
+                        changed = True
+        last_line = max(getattr(x, "end_lineno", x.lineno) for l in loops for x in [l])
+        bad = []
+        for n in walk_no_nested(fi.node):
+            if isinstance(n, ast.Name) and isinstance(n.ctx, ast.Load) and n.id in snaps and n.lineno > last_line:
+                # re-assigned after the loop from the current feature list: no longer a snapshot
+                redefined = any(isinstance(a, ast.Assign) and len(a.targets) == 1 and isinstance(a.targets[0], ast.Name) and a.targets[0].id == n.id and last_line < a.lineno <= n.lineno for a in walk_no_nested(fi.node))
+                if not redefined:
+                    bad.append(n)
+        ctx.ob(R, construct(fi, f"no value computed from self.features before the removal loop is used after it ({len(snaps)} snapshot(s))"), not bad, loc(fi, bad[0] if bad else first),
+               "" if not bad else f"`{bad[0].id}` was computed from the feature list before features were removed and is used afterwards: a dropped feature is processed again (its values_orders / input_dtypes entry comes back)")
+
+
 def check(ctx):
+    rule_stale_feature_snapshot(ctx)
+    from . import c12
+
+    c12.rule_suffix(ctx)  # per-class tables are built from the per-class carver's own (kept) features
     rule_remove_complete(ctx)
     rule_remove_dispatch(ctx)
     rule_pool_chunksize(ctx)
@@ -412,6 +459,7 @@ def check(ctx):
 
 
 MUTANTS = [
+    M("column types computed before the identifier-like features are removed", [(F_DISC, "        # checking for ids (unique value per row)\n        max_frequencies = x_copy[self.features].apply(", "        dtypes_before = x_copy[self.features].fillna(self.str_nan).map(type).apply(unique, result_type=\"reduce\")\n        # checking for ids (unique value per row)\n        max_frequencies = x_copy[self.features].apply("), (F_DISC, "        dtypes = (\n            x_copy[self.features].fillna(self.str_nan).map(type).apply(unique, result_type=\"reduce\")\n        )\n", "        dtypes = dtypes_before\n")], "R-stale-features", "QualitativeDiscretizer._prepare_data"),
     M("D4-reverted: duplicated boundaries", [(F_QUAN, "    return list(\n        unique(\n            np_find_quantiles(", "    return list(\n        sorted(\n            np_find_quantiles(")], "R-boundaries-sorted-unique-inf", "unique", quick=True),
     M("D15-reverted: default group appended unconditionally", [(F_QUAL, "                if self.str_default not in order:\n                    order.append(self.str_default)\n", "                order.append(self.str_default)\n")], "R-append-absent", "CategoricalDiscretizer.fit", quick=True),
     M("dropped feature stays in features_dropna", [(F_BASE, "            if feature in self.features_dropna:\n                self.features_dropna.pop(feature)\n", "")], "R-remove-complete", quick=True),
